@@ -174,6 +174,11 @@ let () =
     | id :: "A" :: "lzw" :: [sz] ->
       let t = int_of_z Charge.lzw_table_bytes and n = int_of_string sz in
       Printf.printf "%s %s\n" id (string_of_bool (t <= n && n <= t + 512))
+    | id :: "W" :: [sc] ->
+      let scans = Stdlib.List.map (fun e -> match Stdlib.String.split_on_char ':' e with
+        | [a; b] -> (z_of_string a, z_of_string b) | _ -> failwith "bad scan") (split_list sc) in
+      let (st, _) = Charge.run_scans scans { Charge.w_visits = z_of_int 0; w_total = z_of_int 0 } in
+      Printf.printf "%s %s %s\n" id (zs st.Charge.w_visits) (zs st.Charge.w_total)
     | id :: "X" :: "main" :: [t] ->
       let es = Stdlib.List.map (fun e -> match Stdlib.List.map z_of_string (Stdlib.String.split_on_char ',' e) with
         | [a; b; c] -> ((a, b), c) | _ -> failwith "bad entry") (Stdlib.String.split_on_char ';' t) in
